@@ -552,3 +552,132 @@ where
 		ctx.report(kind, &params, &fail)
 	})
 }
+
+// ---- bounded libFuzzer campaign (thorough tiers) ------------------------------------------------
+
+/// Runs the cargo-fuzz target `target` for `secs` seconds on `workers` processes, starting from
+/// `seeds`. Crash artefacts are re-run in-process through the same oracle before being reported.
+/// Returns Some(replay path) on a confirmed violation. Tooling problems / OOM / timeouts => exit 2.
+pub fn run_fuzz(ctx: &Ctx, target: &str, secs: u64, workers: usize, max_len: usize, seeds: &[Vec<u8>]) -> Option<String> {
+	use std::process::Command;
+	if ctx.stop.load(Ordering::Relaxed) {
+		return None;
+	}
+	let engine = format!("{}/engine", ctx.root);
+	let st = Command::new("cargo")
+		.args(["+nightly", "fuzz", "build", "--fuzz-dir", "fuzz", "-s", "none", target])
+		.current_dir(&engine)
+		.env("CARGO_NET_OFFLINE", "true")
+		.output();
+	match st {
+		Ok(o) if o.status.success() => {}
+		Ok(o) => {
+			eprintln!("fuzz build failed: {}", String::from_utf8_lossy(&o.stderr).lines().rev().take(15).collect::<Vec<_>>().join("\n"));
+			std::process::exit(2);
+		}
+		Err(e) => {
+			eprintln!("cannot run cargo fuzz: {}", e);
+			std::process::exit(2);
+		}
+	}
+	let bin = format!("{}/fuzz/target/x86_64-unknown-linux-gnu/release/{}", engine, target);
+	let work = format!("{}/work/fuzz/{}-{}", ctx.root, target, std::process::id());
+	let _ = std::fs::remove_dir_all(&work);
+	let corpus = format!("{}/corpus", work);
+	let arts = format!("{}/artifacts", work);
+	std::fs::create_dir_all(&corpus).expect("corpus dir");
+	std::fs::create_dir_all(&arts).expect("artifact dir");
+	for (i, s) in seeds.iter().enumerate() {
+		let _ = std::fs::write(format!("{}/seed{:03}", corpus, i), s);
+	}
+	let out = Command::new(&bin)
+		.arg(&corpus)
+		.args([
+			format!("-max_total_time={}", secs),
+			format!("-seed={}", (ctx.seed % 0xFFFF_FFF0) + 1),
+			"-len_control=0".into(),
+			format!("-max_len={}", max_len),
+			"-rss_limit_mb=0".into(),
+			"-malloc_limit_mb=8192".into(),
+			"-timeout=60".into(),
+			format!("-artifact_prefix={}/", arts),
+			format!("-jobs={}", workers),
+			format!("-workers={}", workers),
+			"-print_final_stats=1".into(),
+		])
+		.current_dir(&work)
+		.env("PV_ROOT", &ctx.root)
+		.output();
+	if let Err(e) = out {
+		eprintln!("cannot run fuzz target: {}", e);
+		std::process::exit(2);
+	}
+	// stats from the per-job logs
+	let mut execs: u64 = 0;
+	let mut logs = 0;
+	if let Ok(rd) = std::fs::read_dir(&work) {
+		for e in rd.flatten() {
+			let p = e.path();
+			if p.extension().map_or(false, |x| x == "log") {
+				logs += 1;
+				if let Ok(t) = std::fs::read_to_string(&p) {
+					for l in t.lines() {
+						if let Some(n) = l.strip_prefix("stat::number_of_executed_units:") {
+							execs += n.trim().parse::<u64>().unwrap_or(0);
+						}
+					}
+				}
+			}
+		}
+	}
+	let corpus_n = std::fs::read_dir(&corpus).map(|d| d.count()).unwrap_or(0);
+	ctx.evals(execs);
+	ctx.put(&format!("libfuzzer:{}", target), json!({"executions": execs, "jobs": logs, "seconds": secs, "seed_inputs": seeds.len(), "final_corpus": corpus_n, "sanitizer": "none (peppi has no unsafe code; speed preferred)"}));
+	let mut found = None;
+	let mut inconclusive = false;
+	if let Ok(rd) = std::fs::read_dir(&arts) {
+		let mut files: Vec<_> = rd.flatten().map(|e| e.path()).collect();
+		files.sort();
+		for p in files {
+			let name = p.file_name().unwrap().to_string_lossy().to_string();
+			let data = std::fs::read(&p).unwrap_or_default();
+			if name.starts_with("crash-") {
+				match crate::props::fuzz_one(target, &data) {
+					Err(f) => {
+						if !ctx.is_known(&f) && found.is_none() {
+							found = Some(ctx.report("fuzz", &json!({"target": target, "input": hex(&data)}), &f.with_file("fuzz_input", &data)));
+						}
+					}
+					Ok(()) => {
+						eprintln!("fuzz artefact {} does not reproduce in-process", name);
+						inconclusive = true;
+					}
+				}
+			} else {
+				eprintln!("libFuzzer artefact {} (oom/timeout/leak): inconclusive", name);
+				inconclusive = true;
+			}
+		}
+	}
+	if found.is_none() {
+		let _ = std::fs::remove_dir_all(&work);
+		if inconclusive {
+			std::process::exit(2);
+		}
+	} else {
+		ctx.stop.store(true, Ordering::Relaxed);
+	}
+	found
+}
+
+pub fn random_seeds(seed: u64, n: usize, len: usize) -> Vec<Vec<u8>> {
+	(0..n)
+		.map(|i| {
+			let mut b = vec![0u8; if i == 0 { 64 } else { len }];
+			if i > 0 {
+				crate::gen::SplitMix(seed ^ (i as u64 * 0x9E37)).fill(&mut b);
+			}
+			b
+		})
+		.collect()
+}
